@@ -564,6 +564,73 @@ func c12Buildable(s *sx.Node) (ok bool) {
 	return true
 }
 
+// c12TypedAtAny walks a schema descriptor and a NATIVE value of it in parallel (map-based objects, lists, maps,
+// references of the scope) and puts, with probability 1/2 each, a typed container (anyTypedValue) where the schema
+// says `any`: the arguments of Validate / Serialize then hold values the any type converts element by element.
+// Where the shapes do not correspond the value is left as it is.
+func c12TypedAtAny(r *Rng, d *sx.Node, tab scopeCtx, v *sx.Node, fuel int) *sx.Node {
+	if fuel <= 0 || d == nil {
+		return v
+	}
+	if !d.IsList() {
+		if !d.IsStr && d.Atom == "any" && r.Bool() {
+			return anyTypedValue(r, 2)
+		}
+		return v
+	}
+	if !v.IsList() || len(v.List) < 3 {
+		return v
+	}
+	switch d.Head() {
+	case "list":
+		if v.Head() != "sl" || v.List[1].String() != tAnySlice.String() {
+			return v
+		}
+		out := sx.L(v.List[:3]...)
+		for _, e := range v.List[3:] {
+			out.Append(c12TypedAtAny(r, d.List[1], tab, e, fuel-1))
+		}
+		return out
+	case "map":
+		if v.Head() != "m" || !elemAny(v.List[1]) {
+			return v
+		}
+		out := sx.L(v.List[:3]...)
+		for _, e := range v.List[3:] {
+			out.Append(sx.L(e.List[0], c12TypedAtAny(r, d.List[2], tab, e.List[1], fuel-1)))
+		}
+		return out
+	case "object":
+		if v.Head() != "m" || v.List[1].String() != tStrMap.String() {
+			return v
+		}
+		out := sx.L(v.List[:3]...)
+		for _, e := range v.List[3:] {
+			ne := e
+			for _, p := range d.List[3].List {
+				if e.List[0].Head() == "s" && e.List[0].List[2].Str == p.List[0].Str {
+					ne = sx.L(e.List[0], c12TypedAtAny(r, p.List[1].List[1], tab, e.List[1], fuel-1))
+				}
+			}
+			out.Append(ne)
+		}
+		return out
+	case "ref":
+		if o, ok := tab[d.List[1].Str]; ok && isNoneOrEmptyNS(d) {
+			return c12TypedAtAny(r, o, tab, v, fuel-1)
+		}
+	case "scope":
+		inner := scopeTable(d)
+		return c12TypedAtAny(r, inner[d.List[2].Str], inner, v, fuel-1)
+	}
+	return v
+}
+
+// isNoneOrEmptyNS: a reference into the scope's own namespace.
+func isNoneOrEmptyNS(ref *sx.Node) bool {
+	return len(ref.List) < 3 || (ref.List[2].IsStr && ref.List[2].Str == "")
+}
+
 func c12History(r *Rng, sc c04Schema, n int) []*sx.Node {
 	tab := scopeCtx{}
 	if sc.s.Head() == "scope" {
@@ -608,6 +675,9 @@ func c12History(r *Rng, sc c04Schema, n int) []*sx.Node {
 			calls = append(calls, op("u", vM(tAnyMap)))
 		default:
 			if native := c04NativeOf(sc, raw); native != nil {
+				if gp.anyTyped {
+					native = c12TypedAtAny(r, sc.s, tab, native, 8)
+				}
 				calls = append(calls, op(pick(r, []string{"v", "s", "s"}), native))
 			} else {
 				calls = append(calls, op("u", raw))
@@ -620,7 +690,10 @@ func c12History(r *Rng, sc c04Schema, n int) []*sx.Node {
 func init() {
 	families["c12pure"] = &Family{
 		Label: "c12",
-		Gen: func(r *Rng, tier string, emit func(*sx.Node)) {
+		// anyTyped: the values at `any` positions are, in 40 % of the cases, containers the any type converts element by
+		// element (typed slices and maps, []any / map[..]any of narrow integers, float32s, typed containers): a conversion
+		// done IN PLACE shows in the before/after print of the argument (`mutated`)
+		Gen: withProfile(genProfile{anyTyped: true}, func(r *Rng, tier string, emit func(*sx.Node)) {
 			nPer, nGen := 5, 450
 			if tier == "thorough" {
 				nPer, nGen = 12, 4000
@@ -666,7 +739,23 @@ func init() {
 				}
 				emit(c12Case(sc, c12History(r, sc, 1+r.Intn(12))))
 			}
-		},
+			// scope-free objects WITH defaults (at the top, in an inline sub-object, on an any / a list / a number with
+			// units): the schemas for which the runner also evaluates every call on an instance whose objects are struct
+			// literals (decoded-default cache empty).  The fixed C04 schemas of that shape have no defaults and whether the
+			// generated ones do is a matter of the seed; these always do.  (At the end: the streams above stay as they were.)
+			secs := unitsFromSDK(schema.UnitDurationSeconds)
+			inner := dObject("inner", false, prDef("a", dAny(), "{\"k\":[1,2]}"), prDef("t", dInt(nil, nil, &secs), "\"1m\""), pr("b", dInt(nil, nil, nil)))
+			for _, s := range []*sx.Node{
+				dObject("dflt", false, prDef("n", dInt(nil, nil, nil), "5"), prDef("s", dString(nil, nil, nil), "\"abc\""), pr("x", dAny())),
+				dObject("outer", false, pr("in", inner), prDef("l", dList(dInt(nil, nil, nil), nil, nil), "[1,2]"), prReq("id", dString(nil, nil, nil))),
+				dList(inner, nil, ip(3)),
+			} {
+				sc := c04Schema{s: s}
+				for i := 0; i < nPer; i++ {
+					emit(c12Case(sc, c12History(r, sc, 1+r.Intn(12))))
+				}
+			}
+		}),
 		Run: func(p *sx.Node) *sx.Node {
 			mk := func() schema.Type { return buildWithEnv(p.List[1], p.List[2]) }
 			calls := p.List[4].List[1:]
